@@ -26,6 +26,10 @@ pub enum Node {
     SelMsg { inner: Box<Node>, spin: u32 },
     /// two-source select `! [c, #'int]` where nobody ever sends: yields c's result, +3
     SelProc { inner: Box<Node>, msg_first: bool },
+    /// the awaited result carries a heap binary (built from the argument): length + arg
+    BinChild { spin: u32, reps: u32 },
+    /// await both kids, then select over both (both finished): priority decides -> first kid
+    SelDone { a: Box<Node>, b: Box<Node>, swap: bool },
 }
 
 pub struct Gen {
@@ -55,7 +59,7 @@ impl Gen {
         if depth == 0 || *budget <= 0 {
             return leaf(rng);
         }
-        match rng.below(10) {
+        match rng.below(13) {
             0..=1 => leaf(rng),
             2..=4 => {
                 let n = 1 + rng.usize(3);
@@ -76,6 +80,15 @@ impl Gen {
                 Node::ReqRep { rounds: 1 + rng.below(3) as u32 }
             }
             8 => Node::Chain { inner: Box::new(Self::random_node(rng, depth - 1, budget)) },
+            9 => {
+                *budget -= 1;
+                Node::BinChild { spin: *rng.pick(&[0u32, 10, 60, 200]), reps: 1 + rng.below(5) as u32 }
+            }
+            10 => {
+                let a = Self::random_node(rng, depth - 1, budget);
+                let b = Self::random_node(rng, depth - 1, budget);
+                Node::SelDone { a: Box::new(a), b: Box::new(b), swap: rng.chance(1, 2) }
+            }
             _ => {
                 if rng.chance(1, 2) {
                     *budget -= 2;
@@ -180,6 +193,21 @@ impl Gen {
                 self.defs.push(format!("{name} = #'int {{ {} }}", body.join(", ")));
                 name
             }
+            Node::BinChild { spin, reps } => {
+                self.procs += 1;
+                let name = self.fresh();
+                let sp = if *spin > 0 { format!("w = [{spin}, 0] spin, ") } else { String::new() };
+                self.defs.push(format!("{name} = #'int {{ =n, c = n @#'int {{ =m, {sp}[[0x0a0b, {reps}] __binary_repeat__, 0xff] __binary_concat__ }}, b = !c, [b __binary_length__, n] __integer_add__ }}"));
+                name
+            }
+            Node::SelDone { a, b, swap } => {
+                let ka = self.emit(a);
+                let kb = self.emit(b);
+                let name = self.fresh();
+                let (first, second) = if *swap { ("cb", "ca") } else { ("ca", "cb") };
+                self.defs.push(format!("{name} = #'int {{ =n, ca = [n, 1] __integer_add__ @{ka}, cb = [n, 2] __integer_add__ @{kb}, x = !{second}, y = !{first}, s = ! [{first}, {second}], [[x, 31] __integer_multiply__, s] __integer_add__ }}"));
+                name
+            }
             Node::SelProc { inner, msg_first } => {
                 let k = self.emit(inner);
                 let name = self.fresh();
@@ -218,6 +246,12 @@ pub fn eval(node: &Node, arg: i128) -> i128 {
         Node::Chain { inner } => eval(inner, arg * 2) + 1,
         Node::SelMsg { inner, .. } => arg + 7 + eval(inner, arg + 1),
         Node::SelProc { inner, .. } => eval(inner, arg + 1) + 3,
+        Node::BinChild { reps, .. } => (2 * *reps as i128 + 1) + arg,
+        Node::SelDone { a, b, swap } => {
+            let (va, vb) = (eval(a, arg + 1), eval(b, arg + 2));
+            let (first, second) = if *swap { (vb, va) } else { (va, vb) };
+            second * 31 + first
+        }
     }
 }
 
@@ -262,6 +296,17 @@ pub fn shape(node: &Node, h: &mut crate::rng::Fnv) {
             h.u64(*msg_first as u64);
             shape(inner, h);
         }
+        Node::BinChild { spin, reps } => {
+            h.u64(8);
+            h.u64(*spin as u64);
+            h.u64(*reps as u64);
+        }
+        Node::SelDone { a, b, swap } => {
+            h.u64(9);
+            h.u64(*swap as u64);
+            shape(a, h);
+            shape(b, h);
+        }
     }
 }
 
@@ -270,6 +315,7 @@ pub fn has_sleep(node: &Node) -> bool {
         Node::Leaf { sleep, .. } => sleep.is_some(),
         Node::Join { kids, .. } => kids.iter().any(has_sleep),
         Node::Chain { inner } | Node::SelMsg { inner, .. } | Node::SelProc { inner, .. } => has_sleep(inner),
+        Node::SelDone { a, b, .. } => has_sleep(a) || has_sleep(b),
         _ => false,
     }
 }
